@@ -16,11 +16,25 @@ def jobs(rng, thorough):
     return out
 
 
+def jobs_api(rng, thorough):
+    """the user's disconnect callback handed to YncaApi: the link fails (EOF after k bytes / drop at time t) during or after initialize()"""
+    T = core.tables()
+    out = []
+    while len(out) < (6000 if thorough else 150):
+        spec = gen.api_init_fault(rng, T)
+        if spec["fault"] in ("eof", "drop"):
+            if spec["fault"] == "drop" and rng.random() < 0.5:
+                spec["device"]["drop_at"] = round(rng.uniform(8.0, 40.0), 3)        # usually after initialize() has returned
+            out.append((spec, rng.randrange(10 ** 9), rng.choice([0, 0, 3])))
+    return out
+
+
 def run(ctx: core.Ctx):
     ctx.lean_stage()
     b2check.run_b2(ctx, jobs, ["C15"], label="lifecycle scenarios")
     b2check.run_b2(ctx, lambda rng, th: [(gen.conn_port_dies(rng), rng.randrange(10 ** 9), rng.choice([0, 3])) for _ in range(4000 if th else 120)],
                    ["C15"], label="transport ends without raising (port reports closed), monitor only", accept=False)
+    b2check.run_b2(ctx, jobs_api, ["C15"], label="link failure during / after YncaApi.initialize() (the callback given to YncaApi)")
     ctx.info["rule"] = ("sessions of two caller threads with bursts, a link drop / EOF / write error / close() inserted at a random position, close() from a caller, "
                         "from inside a message callback, from the disconnect callback, repeated and concurrent, then API calls on the dead connection; each under a "
                         "seeded schedule with 0/3/6 extra line-level preemptions; a case = one schedule; non-trivial = distinct (spec, seed)")
